@@ -202,13 +202,13 @@ def run(ctx: Ctx):
         for k, ops in enumerate(rig.exhaustive(rig.api_alphabet(), depth)):
             yield f"exhC{depth}:{k}", {"surface": "fs", "restore_duration": 1, "ops": ops}
         rng = ctx.rng.fork("fs")
-        for k in range(ctx.scale(1500, 30000)):
+        for k in range(ctx.scale(1300, 30000)):
             yield f"gen:{k}", rig.gen_case(rng, max_ops=ctx.scale(30, 60))
         rng2 = ctx.rng.fork("fs-api")
-        for k in range(ctx.scale(1500, 15000)):
+        for k in range(ctx.scale(1300, 15000)):
             yield f"genapi:{k}", rig.gen_case(rng2, max_ops=ctx.scale(30, 60), api=True)
         rng3 = ctx.rng.fork("fs-churn")
-        for k in range(ctx.scale(1200, 10000)):
+        for k in range(ctx.scale(1000, 10000)):
             yield f"churn:{k}", rig.gen_churn_case(rng3)
         # health x deletion: corrupt -> delete -> restore at file and folder level, on every surface
         depth = ctx.scale(4, 5)
@@ -223,11 +223,11 @@ def run(ctx: Ctx):
             yield f"exhR{depth}:{k}", {"surface": ("fs", "node")[k % 2], "restore_duration": 3 if k % 4 < 2 else 2,
                                       "ops": [["cfile", "fa", "a", False]] + ops}
         rng5 = ctx.rng.fork("fs-health")
-        for k in range(ctx.scale(600, 10000)):
+        for k in range(ctx.scale(500, 10000)):
             yield f"health:{k}", rig.gen_health_case(rng5, max_ops=ctx.scale(24, 40))
         # the configured initial state: HostNode.__init__ over generated folder lists, then setup_for_episode
         rng6 = ctx.rng.fork("fs-cfg")
-        for k in range(ctx.scale(400, 5000)):
+        for k in range(ctx.scale(350, 5000)):
             yield f"cfg:{k}", rig.gen_cfg_case(rng6)
         # node level: a real computer in a small network, power requests interleaved with file operations
         depth = ctx.scale(3, 4)
@@ -237,7 +237,7 @@ def run(ctx: Ctx):
             for k, ops in enumerate(rig.exhaustive(rig.node_alphabet(), depth)):
                 yield f"exhN{depth}:{c}:{k}", {"surface": "net", "restore_duration": 1, "node": dict(cfg, actions=bool(k % 2)), "ops": ops}
         rng4 = ctx.rng.fork("fs-net")
-        for k in range(ctx.scale(700, 6000)):
+        for k in range(ctx.scale(600, 6000)):
             yield f"net:{k}", rig.gen_net_case(rng4, max_ticks=ctx.scale(10, 14))
 
     state = {"agree": 0, "total": 0, "reported": 0, "t_impl": 0.0, "t_model": 0.0, "actions": set()}
